@@ -84,7 +84,7 @@ fn record(shm: &Shm, spec: &SeqSpec, path: &[usize], clause: &str, detail: &str)
 }
 
 fn is_mutating(op: &Op) -> bool {
-    matches!(op, Op::Put(..) | Op::Del(..) | Op::Batch(..))
+    matches!(op, Op::Put(..) | Op::Del(..) | Op::Batch(..) | Op::BatchBig(..))
 }
 
 /// Apply `op` (plus the family's post-flush) and evaluate all oracles.
